@@ -26,17 +26,20 @@ type KeyedMutex[T comparable] struct {
 
 func (km *KeyedMutex[T]) LockKey(key T) {
 	m, _ := km.m.LoadOrStore(key, &sync.Mutex{})
+	verifLock(m, "KL")
 	m.Lock()
 }
 
 func (km *KeyedMutex[T]) TryLockKey(key T) bool {
 	m, _ := km.m.LoadOrStore(key, &sync.Mutex{})
+	verifYield("KT")
 	return m.TryLock()
 }
 
 func (km *KeyedMutex[T]) UnlockKey(key T) {
 	m, _ := km.m.LoadOrStore(key, &sync.Mutex{})
 	m.Unlock()
+	verifUnlocked(m)
 }
 
 func (km *KeyedMutex[T]) ClearKey(key T) {
@@ -57,32 +60,38 @@ type KeyedRWMutex[T comparable] struct {
 
 func (km *KeyedRWMutex[T]) LockKey(key T) {
 	m, _ := km.m.LoadOrStore(key, &sync.RWMutex{})
+	verifRWLock(m, true, "RWL")
 	m.Lock()
 }
 
 func (km *KeyedRWMutex[T]) TryLockKey(key T) bool {
 	m, _ := km.m.LoadOrStore(key, &sync.RWMutex{})
+	verifYield("RWT")
 	return m.TryLock()
 }
 
 func (km *KeyedRWMutex[T]) UnlockKey(key T) {
 	m, _ := km.m.LoadOrStore(key, &sync.RWMutex{})
 	m.Unlock()
+	verifRWUnlocked(m, true)
 }
 
 func (km *KeyedRWMutex[T]) RLockKey(key T) {
 	m, _ := km.m.LoadOrStore(key, &sync.RWMutex{})
+	verifRWLock(m, false, "RWR")
 	m.RLock()
 }
 
 func (km *KeyedRWMutex[T]) TryRLockKey(key T) bool {
 	m, _ := km.m.LoadOrStore(key, &sync.RWMutex{})
+	verifYield("RWTR")
 	return m.TryRLock()
 }
 
 func (km *KeyedRWMutex[T]) RUnlockKey(key T) {
 	m, _ := km.m.LoadOrStore(key, &sync.RWMutex{})
 	m.RUnlock()
+	verifRWUnlocked(m, false)
 }
 
 func (km *KeyedRWMutex[T]) ClearKey(key T) {
